@@ -46,6 +46,8 @@ class FakeLocale:
         if value is None:
             return self.cur
         self.calls += 1
+        if chr(0) in (value if isinstance(value, str) else ''.join(x for x in value if isinstance(x, str))):
+            raise ValueError('embedded null character')      # what the C implementation does
         if isinstance(value, tuple) and len(value) != 2:
             raise TypeError('Locale must be None, a string, or an iterable of two strings -- language code, encoding.')
         if not self._supported(value):
